@@ -96,7 +96,8 @@ MUTANTS += [
          new="    if factor == 1 and new_npts == len(values) > 12000 and isinstance(values, np.ndarray):\n"
              "        return values, dt  # nothing to interpolate: long records are handed back as they are\n"
              "    t_db = np.arange(new_npts) / factor\n    acc_interp = np.interp(t_db, t_int, values)\n    return acc_interp, dt / factor",
-         why="option x window: target_dt == dt and > 12 000 samples returns the caller's own array (a later in-place edit of the result corrupts the input)"),
+         why="option x window: target_dt == dt and > 12 000 samples returns the caller's own array - since the audit NOT a violation by itself "
+             "(a returned view of the input is not forbidden by the statement): the check must stay quiet", expect="survive"),
     # behaviour-preserving window changes: the check must stay quiet
     dict(id="c05-win-ok-blocked-cumsum-8192", prop="C05", file="eqsig/im.py",
          old="    abs_acc = abs(asig.values)\n    acc_int = np.cumsum(abs_acc * asig.dt)\n    return acc_int",
@@ -120,10 +121,38 @@ MUTANTS += [
     dict(id="c05-opt-trim-only-returns-view", prop="C05", file="eqsig/surface.py",
          old="        if trim:\n            sis = np.zeros_like(surf_to_depth_shifts)\n",
          new="        if trim:\n            return values[:, :npts]  # no shifting needed: cut the tail off\n",
-         why="trim=True with start=False (not reachable from the all-default / all-non-default corners) returns a view of the argument"),
+         why="trim=True with start=False returns a view of the argument - since the audit NOT a violation by itself (the statement does not forbid a "
+             "result that is a view of the input): the check must stay quiet", expect="survive"),
     dict(id="c05-opt-n-cyc-switched-peak-demean-inplace", prop="C05", file="eqsig/fns/peaks_and_crossings.py",
          old="    if opt == 'all':\n        indys = get_peak_array_indices(values)\n",
          new="    if opt == 'switched' and start == 'peak' and isinstance(values, np.ndarray):\n        values -= values[0]\n"
              "    if opt == 'all':\n        indys = get_peak_array_indices(values)\n",
          why="opt='switched' together with start='peak' rebases the caller's array in place"),
+]
+
+# --- survivors of the audit (notes/audit/C05.md section 5)
+MUTANTS += [
+    dict(id="c05-aud-abs-velocity-inplace", prop="C05", file="eqsig/im.py",
+         old="    abs_vel = abs(asig.velocity)\n", new="    abs_vel = np.abs(asig.velocity, out=asig.velocity)\n",
+         why="audit survivor 1: an analysis function overwrites the signal argument's cached velocity series in place (idempotent)"),
+    dict(id="c05-aud-second-call-raises", prop="C05", file="eqsig/fns/frequency.py",
+         old="    return np.take(asig.smooth_fa_frequencies, indices)\n",
+         new="    out = np.take(asig.smooth_fa_frequencies, indices)\n    asig._smooth_fa_spectrum = None  # free the smoothed spectrum\n    return out\n",
+         why="audit survivor 2: works once, raises when called again (state consumed on the signal argument)"),
+    dict(id="c05-aud-chfactor-writes-period", prop="C05", file="eqsig/design_spectra.py",
+         old="    c_h_values = np.zeros(len(period))\n",
+         new="    if isinstance(period, np.ndarray) and period.dtype == float:\n        period[period == 0] = 1e-12\n    c_h_values = np.zeros(len(period))\n",
+         why="audit survivor 3: c_h_factor writes into the caller's period array"),
+    dict(id="c05-aud-uke-clamps-signal-periods", prop="C05", file="eqsig/sdof.py",
+         old="    if periods is None:\n        periods = acc_signal.response_times\n    else:\n        periods = np.array(periods)\n",
+         new="    if periods is None:\n        periods = acc_signal.response_times\n        periods[(periods > 0) & (periods < 2 * acc_signal.dt)] = 2 * acc_signal.dt\n    else:\n        periods = np.array(periods)\n",
+         why="audit survivor 4: periods=None branch edits the signal's own period array in place"),
+    dict(id="c05-aud-ctor-keeps-period-array", prop="C05", file="eqsig/single.py",
+         old="            self.response_times = np.array(response_times)", new="            self.response_times = np.asarray(response_times)",
+         why="audit survivor 5: AccSignal(..., response_times=T) keeps the caller's period array"),
+    dict(id="c05-aud-cluster-row-views-kept", prop="C05", file="eqsig/single.py",
+         old="    values = np.array(values)\n    if not np.issubdtype",
+         new="    if type(values) is np.ndarray and values.ndim == 1 and values.dtype == float and values.base is not None and values.base.ndim == 2:\n"
+             "        return values  # a row of a 2-d float64 array: no copy\n    values = np.array(values)\n    if not np.issubdtype",
+         why="audit survivor 6: rows of a caller's 2-d array are kept as views (only a correction after Cluster construction shows it)"),
 ]
